@@ -109,7 +109,7 @@ def run(tier):
             r.shuffle(combos)
             for cl in combos[:npts]:
                 p = [coord(r, g["axes"][a], cl[a]) for a in range(nd)]
-                fv = float(r.choice([np.nan, -7.5]))
+                fv = float(r.choice([np.nan, -7.5, 0.1, -999.9, 1e300]))
                 t = {"op": f"interp{nd}d", "x": g["axes"][0], "y": g["axes"][1], "v": g["grid"], "xq": p[0],
                      "yq": p[1], "fval": fv, "cls": cl, "g": g}
                 if nd == 3:
@@ -135,7 +135,7 @@ def run(tier):
                 r.shuffle(combos)
                 cls = combos[:npts]
                 pts = [[coord(r, g["axes"][a], cl[a]) for a in range(nd)] for cl in cls]
-                fv = float(r.choice([np.nan, -7.5]))
+                fv = float(r.choice([np.nan, -7.5, 0.1, -999.9, 1e300]))
                 kind = str(r.choice(["Grid", "Eikonal"]))
                 base = {"op": "api_call", "cls": kind, "grid": g["grid"], "gridsize": g["gridsize"],
                         "origin": g["origin"], "fill_value": fv, "g": g, "cl": cls}
